@@ -150,6 +150,10 @@ Done == Quiet /\ AllFinished /\ UNCHANGED vars
 Step == (\E c \in V : Start(c)) \/ (\E p \in Links : Deliver(p[1], p[2])) \/ (\E c \in V : Reinject(c))
 Next == (Step /\ UNCHANGED t) \/ Done
 Spec == Init /\ [][Next]_vars
+\* liveness: under weak fairness of the steps of the code (a started handler runs, a queued message is eventually delivered, every
+\* agent / computation is eventually started) the run ends - checked WITHOUT any state constraint
+FairSpec == Spec /\ WF_vars(Step /\ UNCHANGED t)
+Terminates == <>[](Quiet /\ AllFinished)
 
 \* ---- properties (C02) ------------------------------------------------------------
 Held == [v \in V |-> loc[v].val]
